@@ -100,6 +100,25 @@ template <class T, glm::qualifier Q, int L> static void reg_arith_int() {
 	add_op(nmv<T, Q, L>("findLSB"), any1, spec("i#", tl, L), 'B', 'B', 0, FN { ST(out, glm::findLSB(LV::ld(in))); });
 	add_op(nmv<T, Q, L>("findMSB"), any1, spec("i#", tl, L), 'B', 'B', 0, FN { ST(out, glm::findMSB(LV::ld(in))); });
 }
+// constructors from mixed shapes (the aligned float/int/uint vec3/vec4 constructors are SIMD specialisations) and truncating conversions
+template <class T, glm::qualifier Q> static void reg_ctors() {
+	const char tl = (char)SA<T>::L; const char dom = (tl == 'f' || tl == 'd') ? 'G' : 'I';
+	auto sp = [&](const char* s) { std::string o; for (; *s; ++s) o += (*s == '@') ? tl : (*s == '$') ? dom : *s; return strdup(o.c_str()); };
+	typedef glm::vec<2, T, Q> V2; typedef glm::vec<3, T, Q> V3; typedef glm::vec<4, T, Q> V4;
+	add_op(nm<T, Q>("ctor_v3_s", "vec4"), sp("@$3 @$1"), sp("@4"), 'B', 'B', 0, FN { ST(out, V4(VL<3, T, Q>::ld(in), SA<T>::get(in[3]))); });
+	add_op(nm<T, Q>("ctor_s_v3", "vec4"), sp("@$1 @$3"), sp("@4"), 'B', 'B', 0, FN { ST(out, V4(SA<T>::get(in[0]), VL<3, T, Q>::ld(in + 1))); });
+	add_op(nm<T, Q>("ctor_v2_v2", "vec4"), sp("@$2 @$2"), sp("@4"), 'B', 'B', 0, FN { ST(out, V4(VL<2, T, Q>::ld(in), VL<2, T, Q>::ld(in + 2))); });
+	add_op(nm<T, Q>("ctor_v2_s_s", "vec4"), sp("@$2 @$1 @$1"), sp("@4"), 'B', 'B', 0, FN { ST(out, V4(VL<2, T, Q>::ld(in), SA<T>::get(in[2]), SA<T>::get(in[3]))); });
+	add_op(nm<T, Q>("ctor_s_v2_s", "vec4"), sp("@$1 @$2 @$1"), sp("@4"), 'B', 'B', 0, FN { ST(out, V4(SA<T>::get(in[0]), VL<2, T, Q>::ld(in + 1), SA<T>::get(in[3]))); });
+	add_op(nm<T, Q>("ctor_s_s_v2", "vec4"), sp("@$1 @$1 @$2"), sp("@4"), 'B', 'B', 0, FN { ST(out, V4(SA<T>::get(in[0]), SA<T>::get(in[1]), VL<2, T, Q>::ld(in + 2))); });
+	add_op(nm<T, Q>("ctor_v2_s", "vec3"), sp("@$2 @$1"), sp("@3"), 'B', 'B', 0, FN { ST(out, V3(VL<2, T, Q>::ld(in), SA<T>::get(in[2]))); });
+	add_op(nm<T, Q>("ctor_s_v2", "vec3"), sp("@$1 @$2"), sp("@3"), 'B', 'B', 0, FN { ST(out, V3(SA<T>::get(in[0]), VL<2, T, Q>::ld(in + 1))); });
+	add_op(nm<T, Q>("trunc_v4", "vec3"), sp("@$4"), sp("@3"), 'B', 'B', 0, FN { ST(out, V3(VL<4, T, Q>::ld(in))); });
+	add_op(nm<T, Q>("trunc_v4", "vec2"), sp("@$4"), sp("@2"), 'B', 'B', 0, FN { ST(out, V2(VL<4, T, Q>::ld(in))); });
+	add_op(nm<T, Q>("trunc_v3", "vec2"), sp("@$3"), sp("@2"), 'B', 'B', 0, FN { ST(out, V2(VL<3, T, Q>::ld(in))); });
+	add_op(nm<T, Q>("copy_assign_index", "vec4"), sp("@$4"), sp("@4"), 'B', 'B', 0, FN { V4 a = VL<4, T, Q>::ld(in); V4 b; b = a; V4 c2; for (int i = 0; i < 4; ++i) c2[i] = b[3 - i]; ST(out, c2); });
+	add_op(nm<T, Q>("copy_assign_index", "vec3"), sp("@$3"), sp("@3"), 'B', 'B', 0, FN { V3 a = VL<3, T, Q>::ld(in); V3 b; b = a; V3 c2; for (int i = 0; i < 3; ++i) c2[i] = b[2 - i]; ST(out, c2); });
+}
 template <class T> struct sign_ok { static const bool v = std::numeric_limits<T>::is_signed; };
 template <class T, glm::qualifier Q, int L> static void reg_sign_int() {
 	typedef VL<L, T, Q> LV; const char tl = (char)SA<T>::L;
@@ -111,7 +130,9 @@ template <glm::qualifier Q> static void reg_q() {
 	reg_arith_float<float, Q, 1>(); reg_arith_float<float, Q, 2>(); reg_arith_float<float, Q, 3>(); reg_arith_float<float, Q, 4>();
 	reg_arith_int<int, Q, 1>(); reg_arith_int<int, Q, 2>(); reg_arith_int<int, Q, 3>(); reg_arith_int<int, Q, 4>();
 	reg_sign_int<int, Q, 2>(); reg_sign_int<int, Q, 3>(); reg_sign_int<int, Q, 4>();
+	reg_ctors<float, Q>(); reg_ctors<int, Q>();
 #else
+	reg_ctors<double, Q>(); reg_ctors<unsigned, Q>();
 	reg_arith_float<double, Q, 1>(); reg_arith_float<double, Q, 2>(); reg_arith_float<double, Q, 3>(); reg_arith_float<double, Q, 4>();
 	reg_arith_int<unsigned, Q, 1>(); reg_arith_int<unsigned, Q, 2>(); reg_arith_int<unsigned, Q, 3>(); reg_arith_int<unsigned, Q, 4>();
 #endif
